@@ -1428,3 +1428,307 @@ pub fn gen_sync(seed: u64) -> Scenario {
     sc.id_table = gen_id_start(&mut r);
     sc
 }
+
+// ---------------------------------------------------------------------------------------------
+// HOSTILE: one hostile item spliced into the response stream at a frame boundary
+// ---------------------------------------------------------------------------------------------
+
+#[derive(Clone, Debug)]
+struct Span {
+    depth: usize,
+    tag_off: usize,
+    len_off: usize,
+    len_len: usize,
+    content_off: usize,
+    content_len: usize,
+}
+
+fn encode_map(t: &crate::ber::Tlv, depth: usize, out: &mut Vec<u8>, spans: &mut Vec<Span>) {
+    use crate::ber::Body;
+    let tag_off = out.len();
+    let cons = matches!(t.body, Body::Cons(_));
+    out.push(((t.class as u8) << 6) | if cons { 0x20 } else { 0 } | t.tag as u8);
+    let idx = spans.len();
+    spans.push(Span { depth, tag_off, len_off: 0, len_len: 0, content_off: 0, content_len: 0 });
+    let mut content = Vec::new();
+    let mut inner_spans = Vec::new();
+    match &t.body {
+        Body::Prim(v) => content.extend_from_slice(v),
+        Body::Cons(items) => {
+            for i in items {
+                encode_map(i, depth + 1, &mut content, &mut inner_spans);
+            }
+        }
+    }
+    let len_off = out.len();
+    crate::ber::write_len(out, content.len(), 0);
+    let content_off = out.len();
+    out.extend_from_slice(&content);
+    spans[idx].len_off = len_off;
+    spans[idx].len_len = content_off - len_off;
+    spans[idx].content_off = content_off;
+    spans[idx].content_len = content.len();
+    for mut s in inner_spans {
+        s.tag_off += content_off;
+        s.len_off += content_off;
+        s.content_off += content_off;
+        spans.push(s);
+    }
+}
+
+fn set_len(bytes: &mut Vec<u8>, sp: &Span, new_len: usize) {
+    // rewrite the length field in place (may change its size)
+    let mut l = Vec::new();
+    crate::ber::write_len(&mut l, new_len, 0);
+    bytes.splice(sp.len_off..sp.len_off + sp.len_len, l);
+}
+
+/// Build one hostile item. `search` says whether the IDs 1..=n_ids belong to searches.
+pub fn gen_hostile_item(r: &mut Rng, search: bool, n_ids: usize) -> Hostile {
+    use crate::ber::{Class, Tlv};
+    use crate::msg::{resp_tlv, Resp};
+    let id = 1 + r.below(n_ids as u64) as i64;
+    let ctrls = if r.chance(1, 2) { Some(vec![Ctl { oid: b"1.2.3.4".to_vec(), crit: Some(true), val: Some(b"v".to_vec()) }, Ctl { oid: b"1.2.3.5".to_vec(), crit: None, val: None }]) } else { None };
+    let base_resp = if search {
+        if r.chance(1, 2) {
+            Resp { id, op: RespOp::Entry { dn: "cn=hostile".into(), attrs: vec![("cn".into(), vec![b"x".to_vec(), b"y".to_vec()])] }, ctrls: ctrls.clone() }
+        } else {
+            Resp { id, op: RespOp::Result { tag: 5, res: ResultSpec::simple(0, "hostile-done") }, ctrls: ctrls.clone() }
+        }
+    } else {
+        Resp { id, op: RespOp::Result { tag: *r.pick(&[1, 7, 9, 11, 13, 15, 24]), res: ResultSpec { refs: Some(vec!["ldap://x/".into()]), ..ResultSpec::simple(0, "hostile-reply") } }, ctrls: ctrls.clone() }
+    };
+    let tlv = resp_tlv(&base_resp);
+    let mut bytes = Vec::new();
+    let mut spans = Vec::new();
+    encode_map(&tlv, 0, &mut bytes, &mut spans);
+    let h = |class: &str, bytes: Vec<u8>, must_end: bool| Hostile { before_emission: 0, class: class.to_string(), bytes, must_end, nest: None, outer_inflated: false };
+    let inner: Vec<Span> = spans.iter().filter(|s| s.depth >= 1).cloned().collect();
+    match r.below(30) {
+        0 => {
+            let n = 1 + r.usize(40);
+            h("garbage", r.bytes(n), false)
+        }
+        1 => {
+            let mut b = bytes.clone();
+            for _ in 0..1 + r.usize(3) {
+                let i = r.usize(b.len());
+                b[i] ^= 1 << r.below(8);
+            }
+            h("bitflip", b, false)
+        }
+        2 => {
+            let mut b = bytes.clone();
+            b[0] = *r.pick(&[0x04, 0x31, 0x70, 0xA0, 0x02, 0x0A, 0x61, 0xB0]);
+            h("outer-not-sequence", b, true)
+        }
+        3 => {
+            let mut b = bytes.clone();
+            b[0] = 0x10;
+            h("outer-primitive", b, true)
+        }
+        4 => {
+            // drop the messageID element
+            let items = match &tlv.body {
+                crate::ber::Body::Cons(v) => v[1..].to_vec(),
+                _ => vec![],
+            };
+            h("msgid-missing", crate::ber::encode(&Tlv::seq(items)), true)
+        }
+        5 => {
+            let mut b = bytes.clone();
+            let sp = &inner[0];
+            b[sp.tag_off] = *r.pick(&[0x04, 0x0A, 0x82, 0x42, 0x01]);
+            h("msgid-wrong-tag", b, true)
+        }
+        6 => {
+            let mut b = bytes.clone();
+            b[inner[0].tag_off] = 0x22;
+            h("msgid-constructed", b, true)
+        }
+        7 => {
+            let items = match &tlv.body {
+                crate::ber::Body::Cons(v) => {
+                    let mut x = v.clone();
+                    x[0] = Tlv::prim(Class::Univ, 2, vec![]);
+                    x
+                }
+                _ => vec![],
+            };
+            h("msgid-empty", crate::ber::encode(&Tlv::seq(items)), false)
+        }
+        8 => h("protocolop-missing", crate::ber::encode(&Tlv::seq(vec![Tlv::int(id)])), false),
+        9 => h("empty-envelope", vec![0x30, 0x00], true),
+        10 | 11 => {
+            // an inner element claims more bytes than its container holds: pick one that ends where the
+            // frame ends, so that any inflation overruns the announced outer length
+            let frame_end = bytes.len();
+            let tails: Vec<Span> = inner.iter().filter(|s| s.content_off + s.content_len == frame_end).cloned().collect();
+            let sp = r.pick(&tails).clone();
+            let mut b = bytes.clone();
+            set_len(&mut b, &sp, sp.content_len + 1 + r.usize(5));
+            // keep the outer announced length as it was: re-encode is not done, so the outer length is unchanged
+            // (set_len may have grown the length field by one byte: adjust the outer length to keep the frame size)
+            let grown = b.len() as isize - bytes.len() as isize;
+            if grown != 0 {
+                let outer = spans[0].clone();
+                let mut b2 = b.clone();
+                set_len(&mut b2, &outer, (outer.content_len as isize + grown) as usize);
+                b = b2;
+            }
+            h("inner-length-inflated", b, true)
+        }
+        12 => {
+            let cands: Vec<&Span> = inner.iter().filter(|s| s.content_len >= 2).collect();
+            if cands.is_empty() {
+                return h("empty-envelope", vec![0x30, 0x00], true);
+            }
+            let sp = (*r.pick(&cands)).clone();
+            let mut b = bytes.clone();
+            set_len(&mut b, &sp, sp.content_len - 1 - r.usize(sp.content_len - 1));
+            h("inner-length-truncated", b, false)
+        }
+        13 => {
+            let mut b = bytes.clone();
+            let outer = spans[0].clone();
+            set_len(&mut b, &outer, outer.content_len + 1 + r.usize(300));
+            Hostile { outer_inflated: true, ..h("outer-length-inflated", b, false) }
+        }
+        14 => {
+            let mut b = bytes.clone();
+            let outer = spans[0].clone();
+            set_len(&mut b, &outer, outer.content_len - 1 - r.usize(outer.content_len.min(10) - 1));
+            h("outer-length-truncated", b, false)
+        }
+        15 | 16 => {
+            // an operation that does not belong to the ID's kind
+            let op = if search {
+                RespOp::Result { tag: *r.pick(&[1, 7, 9, 11, 13, 15, 24, 3, 30]), res: ResultSpec::simple(0, "wrong-op") }
+            } else {
+                match r.below(3) {
+                    0 => RespOp::Entry { dn: "cn=wrong".into(), attrs: vec![] },
+                    1 => RespOp::Reference { uris: vec!["ldap://w/".into()] },
+                    _ => RespOp::Intermediate { name: None, val: None },
+                }
+            };
+            h("operation-of-the-wrong-kind-for-the-id", crate::ber::encode(&resp_tlv(&Resp { id, op, ctrls: None })), false)
+        }
+        17 => {
+            // more length octets than any implementation needs
+            let mut b = vec![0x30, 0x89, 0, 0, 0, 0, 0, 0, 0, 0];
+            let content = &bytes[spans[0].content_off..];
+            b.push(content.len() as u8);
+            b.extend_from_slice(content);
+            h("oversize-length-octets", b, false)
+        }
+        18 | 19 => {
+            let depth = *r.pick(&[10u32, 100, 1000, 10_000, 100_000, 200_000]);
+            Hostile { nest: Some((depth, id, r.chance(1, 2))), ..h(&format!("nesting-depth-{depth}"), vec![], false) }
+        }
+        20..=24 => {
+            // control list mutations
+            let bad: Tlv = match r.below(8) {
+                0 => Tlv::seq(vec![]),                                                                  // control without OID
+                1 => Tlv::seq(vec![Tlv::octets(b"1.2.3".to_vec()), Tlv::prim(Class::Univ, 1, vec![])]), // empty BOOLEAN
+                2 => Tlv::seq(vec![Tlv::octets(b"1.2.3".to_vec()), Tlv::cons(Class::Univ, 1, vec![])]), // constructed BOOLEAN
+                3 => Tlv::seq(vec![Tlv::octets(b"1.2.3".to_vec()), Tlv::cons(Class::Univ, 4, vec![Tlv::octets(b"v".to_vec())])]), // constructed value
+                4 => Tlv::octets(b"not a control".to_vec()),
+                5 => Tlv::seq(vec![Tlv::octets(b"1.2.3".to_vec()), Tlv::int(5)]),
+                6 => Tlv::seq(vec![Tlv::cons(Class::Univ, 4, vec![])]), // constructed OID
+                _ => Tlv::seq(vec![Tlv::octets(vec![0xff, 0xfe]), Tlv::boolean(true)]), // OID not UTF-8
+            };
+            let items = match &tlv.body {
+                crate::ber::Body::Cons(v) => vec![v[0].clone(), v[1].clone(), Tlv::cons(Class::Ctx, 0, vec![bad])],
+                _ => vec![],
+            };
+            h("malformed-control", crate::ber::encode(&Tlv::seq(items)), false)
+        }
+        25 => {
+            let items = match &tlv.body {
+                crate::ber::Body::Cons(v) => vec![v[0].clone(), v[1].clone(), Tlv::prim(Class::Ctx, 0, b"xx".to_vec())],
+                _ => vec![],
+            };
+            h("controls-primitive", crate::ber::encode(&Tlv::seq(items)), false)
+        }
+        26 | 27 => {
+            // malformed LDAPResult body inside a well-formed envelope
+            let tag = if search { 5 } else { 7 };
+            let body: Tlv = match r.below(6) {
+                0 => Tlv::cons(Class::App, tag, vec![]),
+                1 => Tlv::cons(Class::App, tag, vec![Tlv::octets(b"0".to_vec()), Tlv::octets(vec![]), Tlv::octets(vec![])]),
+                2 => Tlv::cons(Class::App, tag, vec![Tlv::enumerated(0)]),
+                3 => Tlv::cons(Class::App, tag, vec![Tlv::enumerated(0), Tlv::octets(vec![0xff]), Tlv::octets(vec![])]),
+                4 => Tlv::prim(Class::App, tag, b"prim".to_vec()),
+                _ => Tlv::cons(Class::App, tag, vec![Tlv::enumerated(0), Tlv::octets(vec![]), Tlv::octets(vec![]), Tlv::prim(Class::Ctx, 3, b"refs".to_vec())]),
+            };
+            h("malformed-result-body", crate::ber::encode(&Tlv::seq(vec![Tlv::int(id), body])), false)
+        }
+        28 => {
+            let mut b = vec![0x30, 0x80];
+            b.extend_from_slice(&bytes[spans[0].content_off..]);
+            b.extend_from_slice(&[0, 0]);
+            h("indefinite-length", b, false)
+        }
+        _ => Hostile { outer_inflated: true, ..h("huge-announced-length", vec![0x30, 0x84, 0x7f, 0xff, 0xff, 0xff, 0x02, 0x01, 0x01], false) },
+    }
+}
+
+pub fn gen_hostile(seed: u64) -> Scenario {
+    let mut r = Rng::new(seed);
+    let mut sc = Scenario::new("HOSTILE");
+    sc.knobs = gen_knobs(&mut r, false);
+    sc.knobs.yield_pm = 0;
+    sc.knobs.net_delay_max_ms = 0;
+    let search = r.chance(1, 2);
+    let n = 1 + r.usize(3);
+    for c in 0..n {
+        let mut cs = ClientScript::default();
+        let tok = format!("c{c}s0");
+        if search {
+            let mut plan = gen_items_plan(&mut r, &tok, 2, true, &[0]);
+            let mut n_items = 0;
+            if let ReplyPlan::Items { items, done, .. } = &mut plan {
+                if let Some(f) = items.first_mut() {
+                    f.gap_ms = 10;
+                } else if let Some(d) = done {
+                    d.gap_ms = 10;
+                }
+                n_items = items.len();
+            }
+            sc.plan.by_token.insert(tok.clone(), plan);
+            cs.steps.push(Step::Open { token: tok.clone(), slot: 0, search: simple_search(&tok, &mut r), adapter: if r.chance(1, 2) { Adapter::Direct } else { Adapter::EntriesOnly }, mods: Mods::default() });
+            for _ in 0..=n_items {
+                cs.steps.push(Step::Next { slot: 0, cancel_after_polls: None });
+            }
+            cs.steps.push(Step::Finish { slot: 0 });
+        } else {
+            let op = gen_single_op(&mut r, &tok);
+            let plan = gen_single_plan(&mut r, &op, &tok, &[10], false);
+            sc.plan.by_token.insert(tok.clone(), plan);
+            cs.steps.push(Step::Op { token: tok, op, mods: Mods::default(), cancel_after_polls: None });
+        }
+        sc.clients.push(cs);
+    }
+    let mut h = gen_hostile_item(&mut r, search, n);
+    let total_emissions: usize = sc
+        .plan
+        .by_token
+        .values()
+        .map(|p| match p {
+            ReplyPlan::Single { .. } => 1,
+            ReplyPlan::Items { items, done, .. } => items.len() + done.is_some() as usize,
+            _ => 0,
+        })
+        .sum();
+    h.before_emission = if r.chance(2, 3) { 0 } else { r.usize(total_emissions.max(1)) };
+    if h.nest.map_or(false, |(d, ..)| d >= 10_000) {
+        // the decoder re-parses the whole buffer for every chunk: keep big frames in one piece
+        sc.knobs.chunking = Chunking::Whole;
+        sc.knobs.max_read = 0;
+        sc.knobs.random_read_cap = false;
+        sc.knobs.read_pending_pm = 0;
+    }
+    sc.plan.hostile = Some(h);
+    sc.plan.close_after_idle_ms = Some(1000);
+    sc
+}
